@@ -39,13 +39,24 @@ TARGETS = [
                        effects={'scan_lock': ['SCANT', 'HEADT', 'FOREIGN', 'N_TLOCK'], 'scan_unlock': ['SCANT', 'HEADT', 'FOREIGN', 'N_TLOCK'], 'ring_next': ['SCANT', 'SCAN_POS'],
                                 'prelocked_thread_interrupt': ['HEADT', 'SCANT', 'Q_LEN', 'WOKEN_SUM', 'N_WOKEN']}, pure=[], ptr_targets={'th': ['SCANT', 'HEADT', 'FOREIGN']})}),
 ]
-UNITS = {'sem.c': 'sem.c.in', 'resume.c': 'resume.c.in'}
+# a resumed waiter is woken with the reason -1 parked in its error_number (waitq::resume_one / semaphore::try_resume ->
+# prelocked_thread_interrupt): thread_interrupt must not replace it.  The kernel is C04's (specs/C04/sched.c.in + its targets),
+# re-run here so that this property sees a change of that function too.
+import importlib.util as _ilu, os as _os
+_sp = _ilu.spec_from_file_location('spec_C04_for_C02', _os.path.join(_os.path.dirname(__file__), '..', 'C04', 'spec.py'))
+_c04 = _ilu.module_from_spec(_sp); _sp.loader.exec_module(_c04)
+_need = ('t_expiration', 'sat_sub', 't_get', 't_expired', 'prelocked_thread_interrupt', 'thread_interrupt', 'prepare_usleep', 'resume_threads_inlined', 'th_min', 'idle_wait')
+TARGETS += [t for t in _c04.TARGETS if t.name in _need and t.name not in [x.name for x in TARGETS]]
+UNITS = {'sem.c': 'sem.c.in', 'resume.c': 'resume.c.in', 'sched.c': '../C04/sched.c.in'}
 PROOFS = [
     Proof('try_subtract', 'sem.c', 'h_try_subtract', kind='L', min_obligations=4),
     Proof('signal', 'sem.c', 'h_signal', kind='L', min_obligations=4),
     Proof('wait_interruptible', 'sem.c', 'h_wait_interruptible', kind='L', min_obligations=6, backend='cadical'),
     Proof('try_resume/in_order', 'resume.c', 'h_try_resume', kind='L', min_obligations=8),
     Proof('try_resume/out_of_order', 'resume.c', 'h_try_resume', kind='L', defines=['OOO'], min_obligations=8),
+    Proof('resume/interrupt_keeps_reason', 'sched.c', 'h_interrupt', kind='L', defines=['STUB_PRELOCKED'], min_obligations=5),
+    Proof('resume/wake_sleeper', 'sched.c', 'h_prelocked', kind='L', min_obligations=4),
+    Proof('resume/prepare_usleep', 'sched.c', 'h_prepare_usleep', kind='L', min_obligations=6),
     Proof('lemma/conservation', 'sem.c', 'lemma_conservation', kind='L', min_obligations=2, backend='cadical'),
 ]
 NATIVES = [Native('native', 'native.cpp', args_quick=[300], args_thorough=[20000], timeout=3000, link_photon=True, cxxflags=['-fpermissive'])]
